@@ -39,6 +39,7 @@ DDL_STATUS = {
     "DROP DATABASE": ("", " successfully dropped.", "D"),
     "ALTER TABLE ADD COLUMN": ("Statement executed successfully.", "", None),
     "ALTER TABLE RENAME": ("Statement executed successfully.", "", None),
+    "ALTER VIEW RENAME": ("Statement executed successfully.", "", None),
 }
 
 
@@ -225,7 +226,29 @@ def rule_last_statement(ctx):
 
 from .c16 import rule_nop  # noqa: E402  (a statement wrongly no-op'd changes no rows and reports no count)
 
+def rule_lookups_scoped(ctx):
+    """C04.f / C03.g: what a statement reports (and what context it resolves) rests on lookups in the right database: every
+    by-name lookup fakesnow sends to one of DuckDB's catalog-wide system views carries a conjunct on the database — otherwise a
+    same-named object of another attached database answers ("T already exists" for a table that was just created)."""
+    from .common import unscoped_lookups
+
+    bad, n = unscoped_lookups(ctx.prog)
+    seen = set()
+    for kind, txt, site in bad:
+        if txt in seen:
+            continue
+        seen.add(txt)
+        ctx.ob("C04.f", f"{kind}: by-name lookup in a catalog-wide system view is scoped to one database", False, f"fakesnow/cursor.py:{getattr(site, 'lineno', 0)}", txt[:80])
+        ctx.violation("C04.f", "cursor", "FakeSnowflakeCursor._execute", f"{kind}: lookup without a database conjunct: {txt[:70]}",
+                      f"fakesnow/cursor.py:{getattr(site, 'lineno', 0)}",
+                      f"while executing {kind} fakesnow looks an object up with `{txt[:110]}`: DuckDB's information_schema / duckdb_* views span every "
+                      f"attached database, so a same-named object in another database decides the answer")
+    ctx.ob("C04.f", f"all {n} by-name lookups in catalog-wide system views carry a database conjunct", not bad, "fakesnow")
+    ctx.floor("C04.f by-name lookups inspected", n, 2)
+
+
 RULES = [
+    ("C04.f", rule_lookups_scoped, ("quick", "thorough")),
     ("C04.e", rule_nop, ("quick", "thorough")),
     ("C04.a", rule_count, ("quick", "thorough")),
     ("C04.b", rule_status, ("quick", "thorough")),
